@@ -38,6 +38,16 @@ AmtSumSeq(s) == LET F[i \in 0..Len(s)] == IF i = 0 THEN Zero ELSE AmtAdd(F[i - 1
 
 InRange(a) == a.h = 0 /\ AmtLE(a, MaxMoney)
 
-\* block subsidy; only the first two eras are reachable with real chains here
-Subsidy(height) == IF height < 210000 THEN A(50, 0) ELSE IF height < 420000 THEN A(25, 0) ELSE A(12, 50000000)
+\* block subsidy: 50 BTC halved (integer shift) every 210000 blocks, nothing after 64 halvings.
+\* 5 000 000 000 = 9765625 * 2^9 does not fit a TLC integer, so the shift is done on that factorisation.
+RECURSIVE Pow2(_)
+Pow2(k) == IF k = 0 THEN 1 ELSE 2 * Pow2(k - 1)
+HalvingInterval == 210000
+Subsidy(height) ==
+    LET k == height \div HalvingInterval
+    IN IF k = 0 THEN A(50, 0)
+       ELSE IF k = 1 THEN A(25, 0)
+       ELSE IF k <= 9 THEN Norm(0, 0, 9765625 * Pow2(9 - k))
+       ELSE IF k <= 33 THEN Norm(0, 0, 9765625 \div Pow2(k - 9))
+       ELSE Zero
 =============================================================================
